@@ -204,6 +204,9 @@ def run_history(root: Path, hist: dict, after_session: Callable | None = None,
                                 if spec.get("clear"):
                                     obj.clear()
                                 obj.update(copy.deepcopy(spec.get("set", {})))
+                                for outer, inner, value in spec.get("nested_set", []):
+                                    # mutate a nested container of the caller's object *in place*
+                                    obj.setdefault(outer, {})[inner] = copy.deepcopy(value)
                                 meta_arg = obj
                             else:
                                 meta_arg = copy.deepcopy(spec["lit"])
